@@ -285,6 +285,7 @@ func codecs(r *Run) {
 }
 
 func runC13(r *Run) {
+	descendantHashBinding(r)
 	preimage(r)
 	codecs(r)
 	canonicalCallData(r)
@@ -292,4 +293,13 @@ func runC13(r *Run) {
 	r.Guards([]row{{F: "vm.(*VM).applySend", C: "ne(embedded.GetEmbeddedMethod(recv.context,a0.ToAddress,a0.Data)#0.ValidateSendBlock(a0),nil) @ ne(constants.ErrNotContractAddress,embedded.GetEmbeddedMethod(recv.context,a0.ToAddress,a0.Data)#1)", Pre: []string{".SubBalance"}, Why: "every contract-addressed send is validated (and canonicalised) before the debit"}})
 	r.Order("vm.(*Supervisor).applyBlock", "vm.(*VM).applyBlock", "vm.(*Supervisor).packBlock", "the hash is verified (in packBlock) after the validator canonicalised the data, i.e. over the canonical form")
 	r.Exhaust = true
+}
+
+// descendantHashBinding: the hash of a contract-receive covers only the *claimed* Hash fields of its
+// descendant blocks, so the content of every descendant must itself be hash-checked before the
+// transaction is accepted (shared by C13, C03, C01). D21 was the absence of this check.
+func descendantHashBinding(r *Run) {
+	r.Alias("$desc", "recv.transaction.Block.DescendantBlocks[(iter+1)]")
+	r.Guard("verifier.(*accountBlockTransactionVerifier).descendantBlocks", r.X("ne($desc.ComputeHash(),$desc.Hash)"),
+		"a descendant block is stored and later received by its recipient with the content delivered; its Amount, ToAddress, TokenStandard and Data are bound to the parent only through its own recomputed hash")
 }
